@@ -18,8 +18,13 @@ impl StrengthReduction {
         }
     }
 
+    /// `x ** 2 -> x * x` duplicates `x`, which is then evaluated and converted twice. That is only
+    /// unobservable (and only gives the same result) for numeric literals: an identifier may hold an
+    /// object whose `valueOf` would run twice, or a `BigInt`, for which `x ** 2` must throw a `TypeError`
+    /// while `x * x` does not.
     fn is_side_effect_free(expr: &Expression) -> bool {
-        matches!(expr, Expression::Literal(_) | Expression::Identifier(_))
+        use boa_ast::expression::literal::LiteralKind;
+        matches!(expr, Expression::Literal(lit) if matches!(lit.kind(), LiteralKind::Int(_) | LiteralKind::Num(_)))
     }
 
     fn as_literal_int(expr: &Expression) -> Option<i32> {
